@@ -108,6 +108,14 @@ def run_shard(campaign, shard, nshards, seed, tier):
             part.distinct(case)
             lc.run_case(part, campaign, case, oracle=oracle_layer, theorem=THEOREMS + '.C09_ignore')
             part.sample({'ops': case['ops'][:6], 'address': case['insts'][0]['txa']})
+    elif campaign == 'emitted':
+        ncase = (160 if quick else 8000) // nshards + 1
+        for _ in range(ncase):
+            case = gen_emitted_case(rng)
+            part.distinct(case)
+            part.hist('emitted_mode', case['insts'][0]['txa']['mode'])
+            lc.run_case(part, campaign, case, oracle=oracle_emitted, theorem=THEOREMS + '.C09_emit_id')
+            part.sample({'ops': case['ops'][:8], 'address': case['insts'][0]['txa']})
     elif campaign == 'functional':
         combos = [(tx_dl, mode, None, ml) for tx_dl in TX_DLS for mode in MODES for ml in (None, 4, 8, 12, 16, 64) if ml is None or ml <= tx_dl]
         # asymmetric addresses whose transmit and receive halves differ in prefix size
@@ -202,6 +210,76 @@ def oracle_layer(case, lines, insts):
     return fails
 
 
+def gen_emitted_case(rng):
+    """physical and functional sends, own multi-frame messages, receptions answered with Flow Control, all interleaved, with the rate
+    limiter holding frames back from time to time: every emitted frame carries the documented identifier"""
+    from streams import encode_stream
+    mode = rng.choice(['NormalFixed_29bits', 'Mixed_29bits', 'NormalFixed_29bits', 'Mixed_29bits', 'Normal_11bits', 'Extended_29bits', 'Mixed_11bits'])
+    a = rand_address(rng, mode)
+    params = {'blocksize': rng.choice([0, 1, 2]), 'stmin': 0}
+    limited = rng.random() < 0.6
+    if limited:
+        params.update(rate_limit_enable=True, rate_limit_max_bitrate=64 * 8, rate_limit_window_size=0.125)
+    inst = {'txa': a, 'rxa': None, 'params': params}
+    rid, ext, pfx = reach(inst)
+    ops = []
+    tats = []
+    incoming = []
+    for step in range(rng.randint(8, 30)):
+        r = rng.random()
+        if r < 0.2:
+            t = rng.choice(['F', 'P'])
+            ops.append([0, 'send', t, hx(bytes(rng.getrandbits(8) for _ in range(rng.randint(1, 5))))])
+            tats.append(t)
+        elif r < 0.28:
+            ops.append([0, 'send', 'P', hx(bytes(rng.getrandbits(8) for _ in range(rng.choice([9, 20]))))])
+            tats.append('M')
+        elif r < 0.4 and not incoming:
+            incoming = encode_stream(bytes(rng.getrandbits(8) for _ in range(rng.choice([10, 25]))), 8, pfx)
+        elif r < 0.6 and incoming:
+            ops.append([0, 'rx', rid, int(ext), hx(incoming.pop(0))])
+        elif r < 0.7:
+            ops.append([0, 'rx', rid, int(ext), hx(pfx + bytes([0x30, 0, 0]))])
+        elif r < 0.8:
+            ops.append([0, 'tick', rng.choice([126 * 10**6, 10**6])])
+        ops.append([0, 'proc', 1, 1])
+    for _ in range(12):
+        ops += [[0, 'tick', 126 * 10**6], [0, 'proc', 1, 1], [0, 'rx', rid, int(ext), hx(pfx + bytes([0x30, 0, 0]))], [0, 'proc', 1, 1]]
+    return {'insts': [inst], 'ops': ops, 'nops': len(ops), 'tats': tats}
+
+
+def oracle_emitted(case, lines, insts):
+    inst = case['insts'][0]
+    a = inst['txa']
+    peer = {'txa': mirror(a), 'rxa': None}
+    pid, pext, ppfx = reach(peer)                     # what the mirrored peer accepts: the documented identifiers of my frames
+    fid, _, _ = reach(peer, functional=True) if a['mode'] in ('NormalFixed_29bits', 'Mixed_29bits') else (pid, None, None)
+    fails = []
+    sf_tats = [t for t in case.get('tats', []) if t != 'M']
+    accepted = [split_line(l)[0] for op, l in zip(case['ops'], lines) if op[1] == 'send']
+    k = 0
+    tplen = len(ppfx)
+    for l in lines:
+        for e in split_line(l)[0]:
+            if not e.startswith('tx:'):
+                continue
+            f = e.split(':')
+            fid_ = int(f[1], 16)
+            d = unhx(f[6])
+            if int(f[2]) != int(pext) or d[:tplen] != ppfx:
+                fails.append(('C09:emitted-frame-not-for-peer', e))
+                continue
+            t = d[tplen] >> 4
+            if t == 0:
+                exp = fid if (k < len(sf_tats) and sf_tats[k] == 'F') else pid
+                k += 1
+            else:
+                exp = pid
+            if fid_ != exp and case.get('nops') == len(case['ops']):
+                fails.append(('C09:emitted-identifier', '%s frame emitted with identifier %x, documented %x' % (['Single', 'First', 'Consecutive', 'Flow Control'][t], fid_, exp)))
+    return fails
+
+
 def oracle_functional(case, lines, insts, cap, n, tat, a):
     fails = []
     ev0 = split_line(lines[0])[0]
@@ -224,7 +302,7 @@ def oracle_functional(case, lines, insts, cap, n, tat, a):
 
 
 def run(ctx):
-    for c in ('tables', 'layer', 'functional'):
+    for c in ('tables', 'layer', 'functional', 'emitted'):
         run_sharded(ctx, 'C09', c)
     ctx.exhaustive['per-address frame table (all single-bit id flips, both id types, all 256 first bytes)'] = True
     return RULE, ASSUME
